@@ -287,6 +287,30 @@ def run_case(case, ctx):
                 ctx.check(si <= sj + 1e-12 * S, "C05/score/not-monotone",
                           "hyperplane with smaller pinball loss (%.6g < %.6g) scores worse (%.6g > %.6g)" % (
                               li, lj, si, sj), cfg=cfg)
+    # a weight of exactly 0 is a row repeated zero times: masked rows (sentinel targets far from everything, weight 0)
+    # leave the fit what it is without them
+    if sub % 4 == 1 and y.dtype.kind == "f" and n >= 12 and variant not in ("tiny-scale",):
+        kz = max(2, n // 20)
+        zi = numpy.random.RandomState(sub % 1013).choice(n, kz, replace=False)
+        y0w = numpy.array(y, dtype=float, copy=True)
+        y0w[zi] = -9999.0 * (1.0 + float(numpy.abs(y).max()))
+        w0w = numpy.ones(n) if w is None else numpy.array(w, dtype=float, copy=True)
+        w0w[zi] = 0.0
+        keep_ = numpy.ones(n, dtype=bool)
+        keep_[zi] = False
+        try:
+            numpy.random.seed(sub % (2 ** 31))
+            mz = new().fit(numpy.array(X, copy=True), y0w, sample_weight=w0w)
+            numpy.random.seed(sub % (2 ** 31))
+            mk_ = new().fit(numpy.array(X[keep_], copy=True), y[keep_], sample_weight=w0w[keep_])
+            lz = pinball(y[keep_], mz.predict(X[keep_]), q, w0w[keep_])
+            lk = pinball(y[keep_], mk_.predict(X[keep_]), q, w0w[keep_])
+            ctx.hit("weights.zero_is_absent")
+            ctx.check(abs(lz - lk) <= 2 * EPS_REL * max(lz, lk) + A, "C05/fit/zero-weight-rows-still-count",
+                      "%d rows with weight 0 and sentinel targets: the fit has pinball loss %.6g on the other rows, the fit "
+                      "without them %.6g" % (kz, lz, lk), cfg=cfg)
+        except Exception as e:
+            ctx.violation("C05/fit/raised/%s/zero-weight-rows" % type(e).__name__, str(e)[:150], cfg=cfg)
     # integer weights are equivalent to repeated rows
     if w is not None:
         rep = (w * 2).astype(int) if frac_w else w.astype(int)     # halves: repeat twice as often (same optimum)
